@@ -695,6 +695,21 @@ def compose_layout(result, interp=None):
         lay.notes.append('unknown part %r' % (part,))
         return [El('unknown', val=part)]
 
+    # bytes built by another composer and then written with compose_bytes / compose_raw: the elements of that composer
+    def expand(els, depth=0):
+        out = []
+        for e in els:
+            if depth < 6 and e.kind == 'raw' and isinstance(e.val, (BytesV, ComposerV)):
+                out.extend(expand(from_value(e.val), depth + 1))
+                continue
+            if e.kind in ('lp', 'repeat', 'sliced') and e.body:
+                e.body = expand(e.body, depth + 1)
+            elif e.kind in ('alt', 'tryalt'):
+                e.a, e.b = expand(e.a, depth + 1), expand(e.b, depth + 1)
+            out.append(e)
+        return out
+    for c in list(per):
+        per[c] = expand(per[c])
     lay.elements = from_value(result.value)
     lay.unplaced = [c for c in result.composers if c not in used and c.ops]
     return lay
